@@ -43,8 +43,9 @@ func c08Case(entryKinds []string, bodyKind string) *Case {
 	mname := atoms.New(ClsUserName, "map", "names")
 	ms := &MapScriptsTop{Name: mname}
 	type inlineScript struct {
-		name func() interp.Value
+		name func() interp.Value // expected by the naming convention (used only as a fallback)
 		body []Stmt
+		got  interp.Value // the label the header / table row actually carries
 	}
 	var inlines []*inlineScript
 	for _, k := range entryKinds {
@@ -55,7 +56,7 @@ func c08Case(entryKinds []string, bodyKind string) *Case {
 			e.Kind, e.Label = "plain", atoms.New(ClsIdent, "target", "")
 		case k == "inline":
 			e.Kind, e.Body = "inline", c08Body(bodyKind, atoms)
-			inlines = append(inlines, &inlineScript{func() interp.Value { return cat(mname.Val, "_", ty.Val) }, e.Body})
+			inlines = append(inlines, &inlineScript{name: func() interp.Value { return cat(mname.Val, "_", ty.Val) }, body: e.Body})
 		case strings.HasPrefix(k, "table:"):
 			e.Kind = "table"
 			for i, rk := range strings.Split(strings.TrimPrefix(k, "table:"), ",") {
@@ -65,7 +66,7 @@ func c08Case(entryKinds []string, bodyKind string) *Case {
 				} else {
 					r.Body = c08Body(bodyKind, atoms)
 					i := i
-					inlines = append(inlines, &inlineScript{func() interp.Value { return cat(mname.Val, "_", ty.Val, fmt.Sprintf("_%d", i)) }, r.Body})
+					inlines = append(inlines, &inlineScript{name: func() interp.Value { return cat(mname.Val, "_", ty.Val, fmt.Sprintf("_%d", i)) }, body: r.Body})
 				}
 				e.Rows = append(e.Rows, r)
 			}
@@ -76,7 +77,13 @@ func c08Case(entryKinds []string, bodyKind string) *Case {
 	cs := &Case{Name: fmt.Sprintf("c08/%v/%s", entryKinds, bodyKind), Prog: prog, Variants: optVariants, NonTrivial: len(entryKinds) > 0, Shape: c08Shape{Entries: entryKinds, Body: bodyKind}}
 	var scripts []*Script
 	for _, in := range inlines {
-		scripts = append(scripts, &Script{NameV: in.name, Body: in.body})
+		in := in
+		scripts = append(scripts, &Script{NameV: func() interp.Value {
+			if in.got != nil {
+				return in.got
+			}
+			return in.name()
+		}, Body: in.body})
 	}
 	// inline text arguments appear as the owning inline script's hoisted label
 	owner := map[*Cmd]func() interp.Value{}
@@ -90,7 +97,7 @@ func c08Case(entryKinds []string, bodyKind string) *Case {
 	behaviour := bisimOracle("inline-script-behaviour", func(x *OracleCtx) []*Script { return scripts }, func(x *OracleCtx) RefOptions {
 		return RefOptions{ArgValue: func(c *Cmd, i int) (interp.Value, bool) {
 			if o, ok := owner[c]; ok && i == 0 {
-				return cat(o(), "_Text_0"), true
+				return cat(o(), "_Text_0"), true // the hoisted label's name is fixed by C06
 			}
 			return nil, false
 		}}
@@ -101,27 +108,69 @@ func c08Case(entryKinds []string, bodyKind string) *Case {
 			if res.Err.Panic != "" || res.Err.IsErr {
 				return &Violation{Sub: "accept", Msg: "variant " + v.Name + " rejected: " + interp.ToString(res.Err.Msg) + res.Err.Panic}
 			}
-			// header
-			want := []interp.Value{cat(mname.Val, "::")}
+			// header: plain and inline entries in source order, then the tables
+			// in source order, then '.byte 0'. The labels of inline scripts and
+			// tables are whatever the compiler chose: they are read off the
+			// header and must be defined exactly once further down.
+			lines := nonBlank(outputLines(res.Out, false))
+			type hdr struct {
+				typ   interp.Value
+				label interp.Value // nil: read it off
+				set   func(l interp.Value)
+			}
+			var hs []hdr
+			ii := 0
+			inlineAt := map[*MapEntry]*inlineScript{}
+			rowAt := map[*MapRow]*inlineScript{}
 			for _, e := range ms.Entries {
+				if e.Kind == "inline" {
+					inlineAt[e] = inlines[ii]
+					ii++
+				}
+				for _, r := range e.Rows {
+					if r.Label == nil {
+						rowAt[r] = inlines[ii]
+						ii++
+					}
+				}
+			}
+			tableLabel := map[*MapEntry]interp.Value{}
+			for _, e := range ms.Entries {
+				e := e
 				switch e.Kind {
 				case "plain":
-					want = append(want, cat("\tmap_script ", e.Type.Val, ", ", e.Label.Val))
+					hs = append(hs, hdr{typ: e.Type.Val, label: e.Label.Val})
 				case "inline":
-					want = append(want, cat("\tmap_script ", e.Type.Val, ", ", mname.Val, "_", e.Type.Val))
+					hs = append(hs, hdr{typ: e.Type.Val, set: func(l interp.Value) { inlineAt[e].got = l }})
 				}
 			}
 			for _, e := range ms.Entries {
+				e := e
 				if e.Kind == "table" {
-					want = append(want, cat("\tmap_script ", e.Type.Val, ", ", mname.Val, "_", e.Type.Val))
+					hs = append(hs, hdr{typ: e.Type.Val, set: func(l interp.Value) { tableLabel[e] = l }})
 				}
 			}
-			want = append(want, "\t.byte 0")
-			lines := nonBlank(outputLines(res.Out, false))
-			if len(lines) < len(want) {
-				return &Violation{Sub: "header", Msg: fmt.Sprintf("variant %s: output has %d lines, the header alone needs %d", v.Name, len(lines), len(want))}
+			if len(lines) < len(hs)+2 {
+				return &Violation{Sub: "header", Msg: fmt.Sprintf("variant %s: output has %d lines, the header alone needs %d", v.Name, len(lines), len(hs)+2)}
 			}
-			if vv := expectLines(x, "header", "variant "+v.Name+": mapscripts header", lines[:len(want)], want); vv != nil {
+			if vv := expectLines(x, "header", "variant "+v.Name+": mapscripts label", lines[:1], []interp.Value{cat(mname.Val, "::")}); vv != nil {
+				return vv
+			}
+			for i, h := range hs {
+				rest, ok := trimPrefixLit(lines[1+i], "\tmap_script ")
+				typ, lbl, ok2 := splitFirst(rest, ", ")
+				if !ok || !ok2 || sameValue(x.C, typ, h.typ) != 1 {
+					return &Violation{Sub: "header", Msg: fmt.Sprintf("variant %s: header line %d is %s, expected a map_script line for type %s (source order: plain and inline entries, then tables)", v.Name, i+1, interp.ToString(lines[1+i]), interp.ToString(h.typ))}
+				}
+				if h.label != nil {
+					if sameValue(x.C, lbl, h.label) != 1 {
+						return &Violation{Sub: "header", Msg: fmt.Sprintf("variant %s: header line %d refers to %s, expected %s", v.Name, i+1, interp.ToString(lbl), interp.ToString(h.label))}
+					}
+				} else {
+					h.set(lbl)
+				}
+			}
+			if vv := expectLines(x, "header", "variant "+v.Name+": header terminator", lines[1+len(hs):2+len(hs)], []interp.Value{"\t.byte 0"}); vv != nil {
 				return vv
 			}
 			// tables
@@ -129,30 +178,40 @@ func c08Case(entryKinds []string, bodyKind string) *Case {
 				if e.Kind != "table" {
 					continue
 				}
-				tl := cat(mname.Val, "_", e.Type.Val)
+				tl := tableLabel[e]
 				sec, n := sectionAfterLabel(x, res.Out, tl)
 				if n != 1 {
 					return &Violation{Sub: "table", Msg: fmt.Sprintf("variant %s: table label %s is defined %d times", v.Name, interp.ToString(tl), n)}
 				}
-				var tw []interp.Value
-				for i, r := range e.Rows {
-					lbl := interp.Value(nil)
-					if r.Label != nil {
-						lbl = r.Label.Val
-					} else {
-						lbl = cat(tl, fmt.Sprintf("_%d", i))
-					}
-					tw = append(tw, cat("\tmap_script_2 ", JoinToks(r.Cond), ", ", JoinToks(r.Value), ", ", lbl))
+				if len(sec) != len(e.Rows)+1 {
+					return &Violation{Sub: "table", Msg: fmt.Sprintf("variant %s: table %s has %d lines, expected %d rows and the terminator", v.Name, interp.ToString(tl), len(sec), len(e.Rows))}
 				}
-				tw = append(tw, "\t.2byte 0")
-				if vv := expectLines(x, "table", fmt.Sprintf("variant %s: table %s", v.Name, interp.ToString(tl)), sec, tw); vv != nil {
+				for i, r := range e.Rows {
+					rest, ok := trimPrefixLit(sec[i], "\tmap_script_2 ")
+					cond, rest2, ok2 := splitFirst(rest, ", ")
+					val, lbl, ok3 := splitFirst(rest2, ", ")
+					if !ok || !ok2 || !ok3 || sameValue(x.C, cond, JoinToks(r.Cond)) != 1 || sameValue(x.C, val, JoinToks(r.Value)) != 1 {
+						return &Violation{Sub: "table", Msg: fmt.Sprintf("variant %s: row %d of table %s is %s, expected var %s and value %s", v.Name, i+1, interp.ToString(tl), interp.ToString(sec[i]), interp.ToString(JoinToks(r.Cond)), interp.ToString(JoinToks(r.Value)))}
+					}
+					if r.Label != nil {
+						if sameValue(x.C, lbl, r.Label.Val) != 1 {
+							return &Violation{Sub: "table", Msg: fmt.Sprintf("variant %s: row %d refers to %s, expected %s", v.Name, i+1, interp.ToString(lbl), interp.ToString(r.Label.Val))}
+						}
+					} else {
+						rowAt[r].got = lbl
+					}
+				}
+				if vv := expectLines(x, "table", "variant "+v.Name+": table terminator", sec[len(e.Rows):], []interp.Value{"\t.2byte 0"}); vv != nil {
 					return vv
 				}
 			}
 			// every inline script is defined exactly once
 			for _, in := range inlines {
-				if n := countLabelDefs(x.C, res.Out, in.name()); n != 1 {
-					return &Violation{Sub: "inline-script", Msg: fmt.Sprintf("variant %s: inline script %s is defined %d times", v.Name, interp.ToString(in.name()), n)}
+				if in.got == nil {
+					return &Violation{Sub: "inline-script", Msg: "an inline script has no header / table entry"}
+				}
+				if n := countLabelDefs(x.C, res.Out, in.got); n != 1 {
+					return &Violation{Sub: "inline-script", Msg: fmt.Sprintf("variant %s: inline script %s is defined %d times", v.Name, interp.ToString(in.got), n)}
 				}
 			}
 			// the mapscripts label and every label are unique
